@@ -167,12 +167,14 @@ def _nt_classes() -> t.Dict[str, t.Any]:
         _NT['One'] = t.NamedTuple('One', [('x', int)])
         _NT['Opt'] = t.NamedTuple('Opt', [('a', int), ('b', t.Optional[str])])
         _NT['Plain'] = collections.namedtuple('Plain', ['p', 'q'])
+        # a subclass that only adds behaviour: its fields (and their types) are the inherited ones
+        _NT['PtSub'] = type('PtSub', (_NT['Pt'],), {'__slots__': (), 'norm': lambda self: abs(self.a)})
     return _NT
 
 
 def nt_cases(shard: int, nshards: int) -> t.Iterator[t.Any]:
     i = 0
-    for name in ('Pt', 'One', 'Opt', 'Plain'):
+    for name in ('Pt', 'One', 'Opt', 'Plain', 'PtSub'):
         for wrap in ('bare', 'List', 'field'):
             for vi in range(len(_NT_VALUES)):
                 if i % nshards == shard:
@@ -185,7 +187,7 @@ def check_namedtuple(case: t.Any, ctx: Ctx) -> None:
     (name, wrap, vi) = case
     cls = _nt_classes()[name]
     v = _NT_VALUES[vi]
-    slots = {'Pt': [int, str], 'One': [int], 'Opt': [int, (str, type(None))], 'Plain': [object, object]}[name]
+    slots = {'Pt': [int, str], 'PtSub': [int, str], 'One': [int], 'Opt': [int, (str, type(None))], 'Plain': [object, object]}[name]
     ok = isinstance(v, (list, tuple)) and len(v) == len(slots) and all(
         (s is object) or (type(x) in (s if isinstance(s, tuple) else (s,))) for (s, x) in zip(slots, v))
     unspec = isinstance(v, (list, tuple)) and len(v) == len(slots) and any(type(x) is bool and s is int for (s, x) in zip(slots, v))
